@@ -58,6 +58,15 @@ func withForm(t *rapid.T, x float64) m16.JV {
 			forms = append(forms, f)
 		}
 	}
+	var goForms []string
+	for _, f := range m16.GoForms {
+		if m16.FormOK(x, f) {
+			goForms = append(goForms, f)
+		}
+	}
+	if len(goForms) > 0 && rapid.IntRange(0, 3).Draw(t, "fromGo") == 0 {
+		return m16.JNum(x, rapid.SampledFrom(goForms).Draw(t, "goForm"))
+	}
 	return m16.JNum(x, rapid.SampledFrom(forms).Draw(t, "form"))
 }
 
@@ -293,7 +302,7 @@ var scalarTypes = []string{"int8", "int16", "int32", "int64", "int", "uint8", "u
 var namedTypes = []string{"MyInt", "MyI64", "MyU8", "MyF64", "MyStr", "MyBool"}
 var containerTypes = []string{"[]int", "[]int8", "[]uint8", "[]uint16", "[]int64", "[]float32", "[]float64", "[]string", "[]bool", "[]any", "[][]int", "[]Inner", "IntSl", "[3]int",
 	"map[string]int", "map[string]int8", "map[string]uint16", "map[string]float32", "map[string]float64", "map[string]string", "map[string]bool", "map[string]any", "map[string][]int", "map[int]string", "map[int]int", "StrIntM",
-	"S", "*S", "Inner", "*Inner", "*int", "*int8", "*string", "*float32", "*[3]int",
+	"S", "*S", "Inner", "*Inner", "TwinA", "TwinB", "*TwinA", "*TwinB", "*int", "*int8", "*string", "*float32", "*[3]int",
 	"func(int)int", "func(int8)int8", "func(string)string", "func(float64)float32", "func()", "func(int)(int,string)", "error"}
 
 func genParamType(t *rapid.T) string {
@@ -490,6 +499,9 @@ var histContainers = []contSpec{
 	{Kind: "slice", T: "[]float64"}, {Kind: "slice", T: "[]string"}, {Kind: "slice", T: "[]bool"}, {Kind: "slice", T: "[]any"}, {Kind: "slice", T: "IntSl"},
 	{Kind: "parray", T: "*[3]int"}, {Kind: "parray", T: "*[4]int"}, {Kind: "parray", T: "*[3]int8"}, {Kind: "parray", T: "*[3]string"}, {Kind: "parray", T: "*[3]float32"},
 	{Kind: "varray", T: "[3]int"},
+	{Kind: "pstruct", T: "TwinA"}, {Kind: "pstruct", T: "TwinB"}, {Kind: "vstruct", T: "TwinA"},
+	{Kind: "field", T: "Holder", Field: "Items"}, {Kind: "field", T: "Holder", Field: "Items"}, {Kind: "field", T: "Holder", Field: "Names"},
+	{Kind: "field", T: "Holder", Field: "Arr"}, {Kind: "field", T: "Holder", Field: "Tab"},
 }
 
 var mapKeyPoolString = []string{"a", "b", "c", "k", "zzz", "x y", "", "0", "7", "length", "A"}
@@ -514,6 +526,19 @@ func genHist(t *rapid.T) histCase {
 		base = base.Elem()
 	}
 	c.Init = genGoValue(t, base, 2)
+	kind := c.Kind
+	if c.Kind == "field" { // the steps address the field; the host struct only carries it
+		f, _ := ty.FieldByName(c.Field)
+		ty, base = f.Type, f.Type
+		switch ty.Kind() {
+		case reflect.Map:
+			kind = "map"
+		case reflect.Slice:
+			kind = "aslice"
+		default:
+			kind = "parray"
+		}
+	}
 	n := rapid.IntRange(1, 12).Draw(t, "nsteps")
 	hc := histCase{Cont: c}
 	pick := func(label string, weights map[string]int) string {
@@ -537,11 +562,14 @@ func genHist(t *rapid.T) histCase {
 	}
 	for i := 0; i < n; i++ {
 		var s step
-		switch c.Kind {
+		switch kind {
 		case "pstruct", "vstruct":
 			w := map[string]int{"set": 40, "get": 4, "del": 8, "call": 16, "gomut": 32}
 			if c.Kind == "vstruct" {
 				w["gomut"] = 0
+			}
+			if base.NumMethod() == 0 && reflect.PointerTo(base).NumMethod() == 0 {
+				w["call"] = 2
 			}
 			s.Op = pick("sop", w)
 			switch s.Op {
@@ -602,7 +630,11 @@ func genHist(t *rapid.T) histCase {
 			}
 		default: // lists
 			et := base.Elem()
-			s.Op = pick("lop", map[string]int{"set": 30, "define": 3, "push": 12, "del": 10, "len": 8, "pop": 3, "get": 4, "call": 4, "gomut": 26})
+			lw := map[string]int{"set": 30, "define": 3, "push": 12, "del": 10, "len": 8, "pop": 3, "get": 4, "call": 4, "gomut": 26}
+			if kind == "slice" || kind == "aslice" {
+				lw["pop"], lw["shift"], lw["splice"], lw["len"] = 6, 4, 4, 12
+			}
+			s.Op = pick("lop", lw)
 			switch s.Op {
 			case "set", "define":
 				s.Key = rapid.SampledFrom(listKeyPool).Draw(t, "lkey")
@@ -617,6 +649,9 @@ func genHist(t *rapid.T) histCase {
 				s.Key = rapid.SampledFrom(append(listKeyPool, "length")).Draw(t, "lkey")
 			case "len":
 				v := m16.JNum(float64(rapid.IntRange(0, 8).Draw(t, "newlen")), "lit")
+				s.Val = &v
+			case "splice":
+				v := m16.JNum(float64(rapid.IntRange(0, 4).Draw(t, "spliceAt")), "lit")
 				s.Val = &v
 			case "call":
 				s.Method = "Sum"
